@@ -43,7 +43,9 @@ func vfC06(w *vfWorld) {
 	cs := &vfC06Case{Probes: map[string]int{}}
 	w.sample = cs
 	cfg := vfDefaultCfg()
-	wl := [][]string{nil, {"good.test"}, {".good.test"}, {"*.good.test"}, {"good.test:8443"}, {"good.test:*"}, {"[::1]"}, {"good.test", ".sub.good.test:8443", "127.0.0.1"}, {"*.good.test:*"}}
+	wl := [][]string{nil, {"good.test"}, {".good.test"}, {"*.good.test"}, {"good.test:8443"}, {"good.test:*"}, {"[::1]"}, {"good.test", ".sub.good.test:8443", "127.0.0.1"}, {"*.good.test:*"},
+		// several entries whose host and port parts must not be mixed, in both orders
+		{"127.0.0.1:*", "good.test"}, {"good.test", "127.0.0.1:*"}, {"sub.good.test:8443", "good.test"}, {"good.test:8443", ".good.test"}, {"[::1]:2375", "good.test", "*.good.test:80"}}
 	cfg.Whitelist = wl[t.Choice("c06.whitelist", len(wl))]
 	cs.Whitelist = cfg.Whitelist
 	cfg.ReverseProxy = t.Prob("c06.rp", 300)
@@ -109,6 +111,19 @@ func vfC06(w *vfWorld) {
 		"https://sub.good.test/x", "https://good.test:8443/p?q=1", "https://GOOD.test/", "https://good.test./", "http://[::1]/", "http://127.0.0.1/", "\x00/evil.test", " //evil.test",
 		"/app/page?x=1&y=2", "/a/b;c=d/e?f=g#h", "/")
 
+	// every whitelisted-looking host with every port
+	for _, h := range []string{"good.test", "sub.good.test", "deep.sub.good.test", "127.0.0.1", "[::1]", "evil.test"} {
+		for _, pt := range []string{"", ":8443", ":2375", ":80", ":443", ":0"} {
+			strs = append(strs, "https://"+h+pt+"/x", "http://"+h+pt, "//"+h+pt+"/")
+		}
+	}
+	// compositions: an innocent same-site prefix, then something that is not part of the path for a validator (fragment,
+	// query, parameter) or that a path cleaner removes (dot segments), then a classic
+	for _, pre := range []string{"/x#", "/x#/..", "/x#/../..", "/x?", "/x?/..", "/x/..", "/x/../..", "/x;/..", "/x/%2e%2e", "/x#/%2e%2e", "/#"} {
+		for _, c := range []string{"/\\evil.test/p", "//evil.test/p", "/\\/evil.test", "\\\\evil.test", "/%5cevil.test", "/%2fevil.test", "/\t/evil.test", "https://evil.test/", "/./\\evil.test", "/..//evil.test"} {
+			strs = append(strs, pre+c)
+		}
+	}
 	judge := func(channel, s, target string) {
 		cs.Probes[channel]++
 		if target == "" || target == "/" {
